@@ -5,6 +5,7 @@ import (
 	"compress/gzip"
 	"encoding/binary"
 	"fmt"
+	"hash/crc32"
 	"io/ioutil"
 	"net/http"
 	"strconv"
@@ -99,11 +100,26 @@ type blockData struct {
 // transcodes a block of data by doing any data modifications necessary to meet requested
 // compression compared to stored compression as well as raw supervoxels versus mapped labels.
 func (d *Data) transcodeBlock(b blockData) (out []byte, err error) {
+	if len(b.data) == 0 {
+		err = fmt.Errorf("block %s has no stored data", b.bcoord)
+		return
+	}
 	formatIn, checksum := dvid.DecodeSerializationFormat(dvid.SerializationFormat(b.data[0]))
 
+	// This reads the serialization directly instead of through dvid.DeserializeData(), so it
+	// has to do the same checks: the value may be truncated and a stored checksum must match.
 	var start int
 	if checksum == dvid.CRC32 {
 		start = 5
+		if len(b.data) < start {
+			err = fmt.Errorf("block %s was corrupted: only %d bytes", b.bcoord, len(b.data))
+			return
+		}
+		stored := binary.LittleEndian.Uint32(b.data[1:5])
+		if computed := crc32.ChecksumIEEE(b.data[start:]); computed != stored {
+			err = fmt.Errorf("block %s has bad checksum.  Stored %x got %x", b.bcoord, stored, computed)
+			return
+		}
 	} else {
 		start = 1
 	}
